@@ -164,10 +164,10 @@ def extract_scenario(lines, scs, scn, dest):
             return dest
     return None
 
-def gen_behaviours(cfg, module, out, simulate=None, timeout=900):
+def gen_behaviours(cfg, module, out, simulate=None, timeout=900, seed=1, cap=None):
     """TLC as generator: transition cover (BFS under EdgeView) or -simulate; writes header + one behaviour per line"""
     md = tempfile.mkdtemp(prefix='tlcgen', dir=WORK)
-    extra = ('-simulate num=%d -depth 400' % simulate) if simulate else ''
+    extra = ('-simulate num=%d -depth 400 -seed %d' % (simulate, seed)) if simulate else ''
     try:
         rc, o = sh('timeout %d tlc -workers %d -metadir %s -cleanup -noGenerateSpecTE %s -config %s.cfg %s.tla' % (timeout, 1 if simulate else 4, md, extra, cfg, module), cwd=SPEC, timeout=timeout + 60)
     finally:
@@ -181,6 +181,9 @@ def gen_behaviours(cfg, module, out, simulate=None, timeout=900):
     if hdr is None or not pre:
         raise ToolError('generator %s produced nothing: %s' % (cfg, o[-1500:]))
     pre = sorted(set(pre))
+    if cap and len(pre) > cap:
+        import random
+        random.Random(seed).shuffle(pre); pre = pre[:cap]
     with open(out, 'w') as f:
         f.write(hdr + '\n')
         for p in pre: f.write(p + '\n')
